@@ -1192,4 +1192,126 @@ theorem dropU_dense_zeroed (r : Nat) :
   exact (zeroed_get ops.zeroK (rowsOf inp) inp.dense r).2
 
 end generic
+
+/-- **C15 (copy_to_ucol: `*sum` in exact arithmetic, real files).** Over `Rat`, with `vals` the values dropped by the
+first loop and removed by the second sweep: `*sum` on exit is `0` under SILU, the signed sum under SMILU_1, its modulus
+under SMILU_2 and the sum of the moduli under SMILU_3 — `rawSum` of `Slu.Model.IluFactor`.  (In the COMPLEX files the
+second sweep adds a stale modulus under SMILU_3, ilu_zcopy_to_ucol.c:204; there the statement is false of the code and is
+not claimed.) -/
+theorem dropU_milu_sum_rat (nrm2 : Array Rat → Rat) (d0 : Rat) (inp : UIn Rat Rat Rat) :
+    (copyToUcol (uopsRat nrm2 d0) inp).sum =
+      match inp.milu with
+      | .silu => 0
+      | .smilu1 => ((copyToUcol (uopsRat nrm2 d0) inp).s1.dropped.map (·.2) ++ (copyToUcol (uopsRat nrm2 d0) inp).s2.removed.map (·.2)).sum
+      | .smilu2 => |((copyToUcol (uopsRat nrm2 d0) inp).s1.dropped.map (·.2) ++ (copyToUcol (uopsRat nrm2 d0) inp).s2.removed.map (·.2)).sum|
+      | .smilu3 => (((copyToUcol (uopsRat nrm2 d0) inp).s1.dropped.map (·.2) ++ (copyToUcol (uopsRat nrm2 d0) inp).s2.removed.map (·.2)).map
+                      (fun x => |x|)).sum := by
+  obtain ⟨ks, -, -, -, -, -, -, -, hsum, -, -, -⟩ := dropCore_inv (uopsRat nrm2 d0) inp.milu inp.permR inp.rule inp.dropTol
+    inp.quota inp.n inp.dense inp.work (rowsOf inp)
+  have hs : (copyToUcol (uopsRat nrm2 d0) inp).sum = finSum (uopsRat nrm2 d0) inp.milu
+      (dropCore (uopsRat nrm2 d0) inp.rule inp.milu inp.dropTol inp.quota inp.n inp.permR inp.dense inp.work (rowsOf inp)).2.1.sum := rfl
+  have hd : (copyToUcol (uopsRat nrm2 d0) inp).s1.dropped =
+      (dropCore (uopsRat nrm2 d0) inp.rule inp.milu inp.dropTol inp.quota inp.n inp.permR inp.dense inp.work (rowsOf inp)).1.dropped := rfl
+  have hr : (copyToUcol (uopsRat nrm2 d0) inp).s2.removed =
+      (dropCore (uopsRat nrm2 d0) inp.rule inp.milu inp.dropTol inp.quota inp.n inp.permR inp.dense inp.work (rowsOf inp)).2.1.removed := rfl
+  rw [hs, hd, hr, hsum]
+  simp only [acc1_rat, acc2_rat]
+  rw [foldl_add_sum (fun e : Int × Rat => miluTerm inp.milu e.2), foldl_add_sum (fun e : Nat × Rat => miluTerm inp.milu e.2)]
+  rw [List.map_reverse, List.map_reverse, List.sum_reverse, List.sum_reverse]
+  generalize (dropCore (uopsRat nrm2 d0) inp.rule inp.milu inp.dropTol inp.quota inp.n inp.permR inp.dense inp.work (rowsOf inp)).1.dropped = ds
+  generalize (dropCore (uopsRat nrm2 d0) inp.rule inp.milu inp.dropTol inp.quota inp.n inp.permR inp.dense inp.work (rowsOf inp)).2.1.removed = rm
+  have hz : (uopsRat nrm2 d0).zeroK = 0 := rfl
+  rw [hz]
+  cases inp.milu
+  · simp [finSum, miluTerm]
+  · simp [finSum, miluTerm]
+  · simp [finSum, miluTerm, uopsRat]
+  · simp [finSum, miluTerm, uopsRat, Function.comp_def]
+
+/-! ### a concrete call: entries dropped by both rules -/
+
+/-- supernodes {0,1,2}, {3}; column 4; segments with representatives 2 (rows 2,0,1 from column 0) and 3 (row 3); visited in
+the order 3, 2, 0, 1; values 5, 1, 1/4, 3; `drop_tol = 1/2`, `quota = 2`, SMILU_1, DROP_BASIC | DROP_COLUMN -/
+def exU : UIn Rat Rat Rat :=
+  { jcol := 4, nseg := 2, segrep := #[2, 3], repfnz := #[-1, -1, 0, 3, -1], permR := #[1, 2, 0, 3, 4],
+    dense := #[1/4, 3, 1, 5, 9], rule := { nodrop := false, basic := true, secondary := true, interp := false },
+    milu := .smilu1, dropTol := 1/2, quota := 2, nnzUj := 10, n := 5, xsup := #[0, 3, 4, 5], supno := #[0, 0, 0, 1, 2],
+    lsub := #[2, 0, 1, 3], xlsub := #[0, 0, 0, 3, 4], ucol := #[7, 0, 0, 0, 0], usub := #[7, 0, 0, 0, 0],
+    xusub := #[0, 0, 0, 1, 1, 0], work := #[0, 0, 0, 0, 0] }
+
+/-- the first loop drops 1/4 (< 1/2), `qselect` returns `tol = 1` (rank 2 of 5, 1, 3), the second sweep removes the entry 1
+and moves the last entry into its place; two entries are stored, `*sum = 1/4 + 1` -/
+example : rowsOf exU = [3, 2, 0, 1] ∧
+    stored exU (copyToUcol (uopsRat (fun _ => 0) 1000) exU) = [(3, 5), (2, 3)] ∧
+    (copyToUcol (uopsRat (fun _ => 0) 1000) exU).tol = some 1 ∧
+    (copyToUcol (uopsRat (fun _ => 0) 1000) exU).s1.dropped = [(0, 1/4)] ∧
+    (copyToUcol (uopsRat (fun _ => 0) 1000) exU).s2.removed = [(0, 1)] ∧
+    (copyToUcol (uopsRat (fun _ => 0) 1000) exU).sum = 5/4 ∧
+    (copyToUcol (uopsRat (fun _ => 0) 1000) exU).nnzUj = 12 ∧
+    (copyToUcol (uopsRat (fun _ => 0) 1000) exU).xusub = #[0, 0, 0, 1, 1, 3] ∧
+    (copyToUcol (uopsRat (fun _ => 0) 1000) exU).dense = #[0, 0, 0, 0, 9] := by
+  decide +kernel
+
+example := dropU_kept_subset (uopsRat (fun _ => 0) 1000) exU (by decide +kernel) (by decide +kernel)
+example := dropU_threshold (uopsRat (fun _ => 0) 1000) exU (by decide +kernel) (by decide +kernel)
+example := (dropU_count (uopsRat (fun _ => 0) 1000) exU).2.2 (by decide +kernel) (by decide +kernel)
+example := dropU_dense_zeroed (uopsRat (fun _ => 0) 1000) exU 2
+example := dropU_milu_sum_rat (fun _ => 0) 1000 exU
+
 end Slu.IluDropU
+
+
+/-! ## Both modelled rules as the drop oracle of `iluFactor` -/
+namespace Slu.Ilu
+open Slu.IluDrop Slu.IluDropU Slu.LU
+
+/-- what `[sd]gsitrf` decides for the U-dropping of column `j` and the specification-level model does not contain: the
+order in which the U-segments list the multipliers (positions `t` of `us`, i.e. pivot indices), the rule bits, the
+tolerance (after DROP_DYNAMIC updates), the quota (a floating-point formula of the caller) and `Glu->n` -/
+structure UCall where
+  order : List Nat
+  rule : Rule
+  dropTol : Rat
+  quota : Int
+  n : Nat
+
+/-- the model of `ilu_?copy_to_ucol` (exact arithmetic) run on the multipliers `us` of a column: `dense` = `us` indexed by
+position, `perm_r` = identity on positions -/
+def ucore (d0 : Rat) (milu : Milu) (c : UCall) (us : List Rat) :=
+  dropCore (uopsRat (fun _ => 0) d0) c.rule milu c.dropTol c.quota c.n ((Array.range us.length).map Int.ofNat) us.toArray
+    (Array.replicate c.n 0) c.order
+
+/-- position `t` is dropped: it is listed and is not among the `usub` entries stored on exit -/
+def dropUFn (d0 : Rat) (milu : Milu) (callU : IluSt Rat → Nat → Vec Rat → List Rat → Option UCall) :
+    IluSt Rat → Nat → Vec Rat → List Rat → Nat → Bool :=
+  fun st j w us t =>
+    match callU st j w us with
+    | none => false
+    | some c =>
+      decide (t ∈ c.order) &&
+        !(((ucore d0 milu c us).2.1.a.toList.take (ucore d0 milu c us).2.1.cnt).map (·.1)).contains (t : Int)
+
+/-- BOTH rules as modelled: U entries by `Slu.IluDropU` (both rules of `ilu_?copy_to_ucol`), L rows and the diagonal
+compensation by `Slu.IluDrop` (`dropRowOracle`) -/
+def dropBothOracle (nrm2 : Array Rat → Rat) (d0 : Rat) (milu : Milu) (callL : IluSt Rat → Nat → Option DropCall)
+    (callU : IluSt Rat → Nat → Vec Rat → List Rat → Option UCall) : DropOracle Rat :=
+  { dropU := dropUFn d0 milu callU
+    dropL := (dropRowOracle nrm2 milu callL).dropL
+    diagMul := (dropRowOracle nrm2 milu callL).diagMul }
+
+/-- **C15 (the whole-factorization identity with BOTH modelled dropping rules).** `iluFactor_identity_with_error`
+instantiated with `dropBothOracle`: whatever segments, quotas, tolerances and supernodes the caller passes (`callU`,
+`callL`), with the U entries chosen by the model of `ilu_?copy_to_ucol` (threshold test, `qselect` / interpolation, the
+second sweep) AND the L rows chosen by the model of `ilu_?drop_row` with its diagonal compensation,
+`L̃·Ũ = Pr·A·Pc + E` entrywise. -/
+theorem iluFactor_identity_dropU (F : Flavour Rat Rat) (P : IluParams Rat Rat) (nrm2 : Array Rat → Rat) (d0 : Rat)
+    (callL : IluSt Rat → Nat → Option DropCall) (callU : IluSt Rat → Nat → Vec Rat → List Rat → Option UCall)
+    (hcol : ∀ j, (P.col j).size = P.m) (b : Bool)
+    (h : (iluFactor F P (dropBothOracle nrm2 d0 P.milu callL callU) b).fail = 0) (j : Nat) (hj : j < P.n) (i : Nat) (hi : i < P.m) :
+    ((List.range (j + 1)).map fun k =>
+        ((iluFactor F P (dropBothOracle nrm2 d0 P.milu callL callU) b).U.getD j #[]).getD k 0 *
+          ((iluFactor F P (dropBothOracle nrm2 d0 P.milu callL callU) b).L.getD k #[]).get i).sum =
+      (P.col j).get i + ((iluFactor F P (dropBothOracle nrm2 d0 P.milu callL callU) b).E.getD j #[]).get i :=
+  iluFactor_identity_with_error magLaws_rat F P (dropBothOracle nrm2 d0 P.milu callL callU) hcol b h j hj i hi
+
+end Slu.Ilu
